@@ -45,6 +45,7 @@ DECIDING = {
     "attrs_compared": 50000,
     "marshal_parse_compared": 500,
     "batches_compared": 100,
+    "received_reserialized": 1000,
     "batch_messages_compared": 500,
     "cache_attacks": 100,
     "is_binary_checked": 5000,
@@ -210,6 +211,8 @@ class Monitor:
                 continue
             R.count("roundtrips_compared")
             self.compare(spec, expected, out[0], sid, mode, case, msg, reported)
+            if "<exception>" not in reported:
+                self.reserialize_received(sid, ser, spec, out[0], 0, 1, case)
             R.seen("nontrivial", "%s|%s|%s" % (label, mode, sid))
             R.seen("payload_kinds", "|".join(sorted(case.get("kinds", []))[:3]))
             R.sample({"class": spec.name, "label": label, "mode": mode, "serializer": sid, "bytes": data[:120].hex(),
@@ -275,6 +278,29 @@ class Monitor:
                                     "element %d of a batch of %d is %s, not the %s that was sent at this index" % (
                                         i, n, type(o).__name__, spec.name), {"n": n, "index": i}, case)
             R.seen("nontrivial", "batch|%s|%d|%s" % (sid, n, h([it[0].name for it in its])))
+            # forwarding: a received message object re-serialized over the SAME serializer instance (no uncache()) must
+            # come out as that one message - the serialization cache must not have been primed with other bytes
+            for i, (it, o) in enumerate(zip(its, out)):
+                self.reserialize_received(sid, ser, it[0], o, i, n, case)
+
+    def reserialize_received(self, sid, ser, spec, o, i, n, case):
+        R = self.R
+        R.count("received_reserialized")
+        try:
+            data2, bin2 = ser.serialize(o)
+            again = ser.unserialize(data2, bin2)
+        except Exception as e:
+            R.violation("C03/cache/reserialize-received/%s/exception-%s" % (sid, type(e).__name__),
+                        "re-serializing element %d of a received batch of %d raised %r" % (i, n, e), {"n": n, "index": i}, case)
+            return
+        if len(again) != 1:
+            R.violation("C03/cache/reserialize-received/%s/count" % sid,
+                        "element %d of a received batch of %d re-serializes to %d messages (stale cached bytes)" % (i, n, len(again)),
+                        {"n": n, "index": i, "bytes": data2[:120].hex()}, case)
+        elif type(again[0]).__name__ != spec.name or G.attr_view(spec, again[0]) != G.attr_view(spec, o):
+            R.violation("C03/cache/reserialize-received/%s/content" % sid,
+                        "element %d of a received batch of %d re-serializes to a different message (%s)" % (
+                            i, n, type(again[0]).__name__), {"n": n, "index": i}, case)
 
     # -- serialization cache --------------------------------------------------------------------
     def cache_attack(self, spec, f, rng, case, nul_prefix=False):
